@@ -4,6 +4,7 @@
 //!   kv-harness gen <suite> <seed> <n> <tier>      → ops lines on stdout (+ `#STATS {json}` last line)
 //!   kv-harness run <suite> < ops                  → impl trace on stdout, one line per op line
 //!                                                   (+ `!oracle …` lines for implementation-side oracles)
+mod probe;
 mod runner;
 mod suites;
 mod util;
